@@ -174,7 +174,16 @@ func (e *explorer) runOnce(prefix []int) (*sched.Exec, []string, string) {
 		i := i
 		fs[i] = func() { results[i] = bodies[i]() }
 	}
-	x := sched.Run(prefix, fs)
+	var x *sched.Exec
+	done := make(chan struct{})
+	go func() { x = sched.Run(prefix, fs); close(done) }()
+	select {
+	case <-done:
+	case <-time.After(stuckAfter):
+		// a thread blocks on something the scheduler does not control (a channel, a real lock):
+		// this process cannot explore the scenario; its state is unusable from here on
+		reportStuck(e.sc.Name)
+	}
 	obs := ""
 	e.probe = nil
 	if !x.Deadlock && !x.Horizon {
@@ -275,6 +284,37 @@ func (e *explorer) check(x *sched.Exec, results []string, obs string, prefix []i
 			}
 		}
 	}
+}
+
+// threadOrders returns every order of n threads except the identity.
+func threadOrders(n int) [][]int {
+	var out [][]int
+	idx := make([]int, n)
+	for i := range idx {
+		idx[i] = i
+	}
+	var rec func(k int)
+	rec = func(k int) {
+		if k == n {
+			id := true
+			for i, v := range idx {
+				if i != v {
+					id = false
+				}
+			}
+			if !id {
+				out = append(out, append([]int{}, idx...))
+			}
+			return
+		}
+		for i := k; i < n; i++ {
+			idx[k], idx[i] = idx[i], idx[k]
+			rec(k + 1)
+			idx[k], idx[i] = idx[i], idx[k]
+		}
+	}
+	rec(0)
+	return out
 }
 
 // fingerprint of everything threads share: the scenario's objects and every package-level variable
@@ -391,6 +431,23 @@ func exploreScenario(sc scen.Scenario, maxBound int, pointLimit int, budget time
 		want = append(want, b())
 	}
 	wantObs := env.Observe()
+	// "equals sequential use" presupposes that sequential use has one answer: the same bodies in
+	// every other thread order, each from a cold start, must give the same results
+	for _, perm := range threadOrders(len(bodies)) {
+		restoreGlobals()
+		_, b2 := sc.Setup()
+		got := make([]string, len(b2))
+		for _, ti := range perm {
+			got[ti] = b2[ti]()
+		}
+		for ti := range got {
+			if got[ti] != want[ti] && len(res.Violations) < 3 {
+				res.Violations = append(res.Violations, ev.Violation{Kind: "sequential-order-dependence",
+					Case:     map[string]any{"scenario": sc.Name, "ops": sc.Ops, "shared": sc.Shared, "sequential_thread_order": perm, "note": "no concurrency involved: the operations were run one after the other, from a cold start, in this order"},
+					Observed: fmt.Sprintf("thread %d (%s): %s", ti, scen.Ops[sc.Ops[ti]].Name, got[ti]), Expected: want[ti] + "  (what the same operation returns when the threads run in order 0,1,…)"})
+			}
+		}
+	}
 	mk := func(bound int) *explorer {
 		return &explorer{sc: sc, bound: bound, deadline: t0.Add(budget), want: want, wantObs: wantObs, res: res, outcomes: map[string]bool{}, traces: map[uint64]bool{}}
 	}
@@ -448,6 +505,23 @@ func exploreScenario(sc scen.Scenario, maxBound int, pointLimit int, budget time
 	return res
 }
 
+// stuckAfter: an execution has a few thousand scheduling points and takes milliseconds
+const stuckAfter = 60 * time.Second
+
+// reportStuck ends the worker: results so far are flushed by the caller's defer chain being
+// bypassed deliberately — the parent re-spawns a worker that skips this scenario.
+var stuckOut *bufio.Writer
+
+func reportStuck(name string) {
+	if stuckOut != nil {
+		b, _ := json.Marshal(map[string]any{"stuck": name})
+		stuckOut.Write(b)
+		stuckOut.WriteByte('\n')
+		stuckOut.Flush()
+	}
+	os.Exit(3)
+}
+
 // unbounded pass: only for scenarios whose executions have at most this many scheduling points
 var (
 	unboundedLimit  = 0
@@ -490,10 +564,19 @@ func worker(tier string, i, n int) {
 	}
 	w := bufio.NewWriter(os.Stdout)
 	defer w.Flush()
+	stuckOut = w
+	skip := map[string]bool{}
+	for _, n := range strings.Split(os.Getenv("VERIF_SCHED_SKIP"), "\x1e") {
+		skip[n] = true
+	}
+	done := map[string]bool{}
+	for _, n := range strings.Split(os.Getenv("VERIF_SCHED_DONE"), "\x1e") {
+		done[n] = true
+	}
 	js := jobsFor(tier)
 	// longest first within the shard would need estimates; a plain stride balances well enough
 	for k, j := range js {
-		if k%n != i {
+		if k%n != i || skip[j.sc.Name] || done[j.sc.Name] {
 			continue
 		}
 		res := exploreScenario(j.sc, j.bound, j.pointLimit, j.budget)
@@ -510,32 +593,52 @@ func parent(tier string) int {
 	exe, _ := os.Executable()
 	var mu sync.Mutex
 	var all []*scResult
+	var stuck []string
 	var wg sync.WaitGroup
 	for i := 0; i < n; i++ {
 		wg.Add(1)
 		go func(i int) {
 			defer wg.Done()
-			cmd := exec.Command(exe, "worker", tier, strconv.Itoa(i), strconv.Itoa(n))
-			cmd.Env = append(os.Environ(), "GOMAXPROCS=1")
-			var out, errb bytes.Buffer
-			cmd.Stdout, cmd.Stderr = &out, &errb
-			err := cmd.Run()
-			mu.Lock()
-			defer mu.Unlock()
-			sc := bufio.NewScanner(&out)
-			sc.Buffer(make([]byte, 1<<20), 1<<26)
-			for sc.Scan() {
-				var res scResult
-				if json.Unmarshal(sc.Bytes(), &res) == nil {
-					all = append(all, &res)
+			var skipList, doneList []string
+			for attempt := 0; attempt < 40; attempt++ {
+				cmd := exec.Command(exe, "worker", tier, strconv.Itoa(i), strconv.Itoa(n))
+				cmd.Env = append(os.Environ(), "GOMAXPROCS=1", "VERIF_SCHED_SKIP="+strings.Join(skipList, "\x1e"), "VERIF_SCHED_DONE="+strings.Join(doneList, "\x1e"))
+				var out, errb bytes.Buffer
+				cmd.Stdout, cmd.Stderr = &out, &errb
+				err := cmd.Run()
+				stuckName := ""
+				mu.Lock()
+				sc := bufio.NewScanner(&out)
+				sc.Buffer(make([]byte, 1<<20), 1<<26)
+				for sc.Scan() {
+					var st struct {
+						Stuck string `json:"stuck"`
+					}
+					if json.Unmarshal(sc.Bytes(), &st) == nil && st.Stuck != "" {
+						stuckName = st.Stuck
+						continue
+					}
+					var res scResult
+					if json.Unmarshal(sc.Bytes(), &res) == nil && res.Scenario != "" {
+						all = append(all, &res)
+						doneList = append(doneList, res.Scenario)
+					}
 				}
-			}
-			if err != nil {
-				tail := errb.String()
-				if len(tail) > 1500 {
-					tail = tail[len(tail)-1500:]
+				if stuckName != "" {
+					stuck = append(stuck, stuckName)
+					skipList = append(skipList, stuckName)
+					mu.Unlock()
+					continue // re-spawn for the remaining scenarios of this shard
 				}
-				r.Infra(fmt.Sprintf("worker %d failed: %v: %s", i, err, tail))
+				if err != nil {
+					tail := errb.String()
+					if len(tail) > 1500 {
+						tail = tail[len(tail)-1500:]
+					}
+					r.Infra(fmt.Sprintf("worker %d failed: %v: %s", i, err, tail))
+				}
+				mu.Unlock()
+				break
 			}
 		}(i)
 	}
@@ -605,7 +708,15 @@ func parent(tier string) int {
 	} else {
 		r.Set("race_pass", "not run (sched invoked directly)")
 	}
-	want := len(jobsFor(tier))
+	want := len(jobsFor(tier)) - len(stuck)
+	if len(stuck) > 0 {
+		// not a verdict on the property: the scheduler cannot control what these scenarios block on
+		sort.Strings(stuck)
+		r.Set("scenarios_not_explorable_under_the_controlled_scheduler", stuck)
+		r.Set("exhaustive", false)
+		complete = false
+		fmt.Printf("INFRA: %d scenarios block on something the controlled scheduler does not see (channel or real lock inside the library?); they were left to the race pass: %v\n", len(stuck), stuck)
+	}
 	if len(all) != want {
 		r.Infra(fmt.Sprintf("%d of %d scenarios reported", len(all), want))
 	}
